@@ -3,9 +3,9 @@ package main
 import (
 	"fmt"
 	"net"
-	"time"
 	"sort"
 	"strings"
+	"time"
 
 	"github.com/dustin/go-humanize"
 	"github.com/vicanso/pike/cache"
